@@ -400,7 +400,8 @@ static void wlShutdown() {
   bool poll = chance(1, 5);
   int load = (int)pick(4); // 0 idle, 1 some short tasks, 2 long sleeping bodies, 3 continuous trickle
   int call = (int)pick(3); // 0 destructor, 1 resize, 2 setSignalingWake
-  int delay = range(0, 400);
+  static const int delayMul[] = {1, 8, 40};
+  int delay = range(0, 400) * oneOf(delayMul); // up to the moment a default-tuned worker gives up spinning and parks
   sim_note("threads", nThreads);
   sim_note("poll", poll);
   sim_note("load", load);
@@ -438,6 +439,26 @@ static void wlShutdown() {
   } else {
     sim_work(delay);
   }
+  // load 3: a producer keeps trickling single tasks, so that workers keep going through the transition from
+  // spinning to parked (the moment at which a stop/resize must not lose them) while the call is made
+  static int stopTrickle;
+  stopTrickle = 0;
+  std::thread trickle;
+  if (load == 3) {
+    int gapNs = 100 * range(2, 40);
+    trickle = std::thread([gapNs]() {
+      for (int i = 0; i < 400 && !stopTrickle; ++i) {
+        g->pool->schedule(mk(A_SCHED));
+        sim_sleep_ns((uint64_t)gapNs);
+      }
+    });
+    sim_sleep_ns((uint64_t)range(200, 20000));
+    if (call == 0) { // nobody may submit to a pool that is being destroyed
+      stopTrickle = 1;
+      trickle.join();
+      sim_work(range(0, 60));
+    }
+  }
   uint64_t idleBefore = sim_stat_idle_futex_timeouts();
   const char* callName = call == 0 ? "~ThreadPool" : (call == 1 ? "resize" : "setSignalingWake");
   ctx.phase = callName;
@@ -455,6 +476,10 @@ static void wlShutdown() {
     expectThreads = nThreads;
   }
   uint64_t idleAfter = sim_stat_idle_futex_timeouts();
+  if (trickle.joinable()) {
+    stopTrickle = 1;
+    trickle.join();
+  }
   if (!poll && idleAfter != idleBefore) {
     char cls[128];
     snprintf(cls, sizeof cls, "backstop-needed:%s:load%d", callName, load);
@@ -664,21 +689,58 @@ static void wlIdleWakeRepeat() {
   ctx.pool = &pool;
   dispenso::TaskSet ts(pool);
   dispenso::ConcurrentTaskSet cts(pool, dispenso::TaskCost::kLightweight);
+  // optional pre-history: the pool is resized while another thread trickles tasks into it (legal); whatever
+  // idle/sleep bookkeeping the resize touches must be exact afterwards, or later small submissions go unwoken
+  bool history = chance(1, 2);
+  sim_note("history", history);
+  if (history) {
+    static int stopTrickle;
+    stopTrickle = 0;
+    std::thread trickle([&pool]() {
+      for (int i = 0; i < 200 && !stopTrickle; ++i) {
+        pool.schedule(mk(A_SCHED));
+        sim_sleep_ns((uint64_t)(100 * (1 + (sim_step() % 7))));
+      }
+    });
+    int nr = range(1, 3);
+    for (int k = 0; k < nr; ++k) {
+      sim_sleep_ns((uint64_t)range(100, 4000));
+      pool.resize(k == nr - 1 ? nThreads : range(1, 8));
+    }
+    stopTrickle = 1;
+    trickle.join();
+  }
   for (int r = 0; r < rounds; ++r) {
     int path = mixPaths ? oneOf(paths) : path0;
+    int bulkN = 0;
+    if (history && chance(1, 2)) {
+      path = P_BULK; // small bulks are the submissions that consult the idle counters
+      bulkN = range(1, std::max(1, nThreads - 1));
+    }
     sim_faults_enable(0);
     for (int i = 0; i < 1000000 && sim_count_blocked_timed_futex() < nThreads; ++i)
       sim_sleep_ns(2000);
     if (sim_count_blocked_timed_futex() < nThreads)
       sim_fail("setup:workers-never-parked", "round %d: only %d of %d workers parked", r, sim_count_blocked_timed_futex(), nThreads);
     sim_faults_enable(1);
-    SimLatch latch(1);
+    SimLatch latch(bulkN ? bulkN : 1);
     wr.latch = &latch;
     WakeBody b;
     b.tag = tagNew(path);
+    std::vector<WakeBody> bulk;
+    for (int k = 1; k < bulkN; ++k) {
+      WakeBody x;
+      x.tag = tagNew(path);
+      bulk.push_back(x);
+    }
     uint64_t idleBefore = sim_stat_idle_futex_timeouts();
     uint64_t t0 = sim_now_ns();
     switch (path) {
+      case P_BULK: {
+        bulk.push_back(b);
+        pool.scheduleBulk(bulk.size(), [&bulk](size_t j) { return bulk[j]; });
+        break;
+      }
       case P_SCHED:
         pool.schedule(b);
         break;
@@ -696,7 +758,8 @@ static void wlIdleWakeRepeat() {
     uint64_t idleAfter = sim_stat_idle_futex_timeouts();
     if (idleAfter != idleBefore) {
       char cls[160];
-      snprintf(cls, sizeof cls, "backstop-needed:%s:single:%s", pathName(path), r == 0 ? "first-submission" : "later-submission");
+      snprintf(cls, sizeof cls, "backstop-needed:%s:%s:%s%s", pathName(path), bulkN > 1 ? "partial" : "single",
+               r == 0 ? "first-submission" : "later-submission", history ? ":after-resize-history" : "");
       sim_fail(cls,
                "submission %d of %d (one task via %s) into a fully parked %d-thread pool needed %llu worker wait-timeout "
                "expiry(ies) with nothing else runnable; simulated latency %.3f ms",
@@ -707,6 +770,9 @@ static void wlIdleWakeRepeat() {
     // the body finishes on its own; the sets are waited at the end
     for (int i = 0; i < 100000 && hx::tag(b.tag).finishes == 0; ++i)
       sim_sleep_ns(2000);
+    for (auto& x : bulk)
+      for (int i = 0; i < 100000 && hx::tag(x.tag).finishes == 0; ++i)
+        sim_sleep_ns(2000);
   }
   ts.wait();
   cts.wait();
